@@ -2,8 +2,9 @@
    (a second program, so that the model driver still builds when a Spec file does not). *)
 Require Extraction.
 Require Import ExtrOcamlBasic ExtrOcamlString.
-From Slinky Require Import Model.Types Model.Parse Model.Dump Model.Exports Model.LdSem Model.LdDump Spec.C16 Spec.C19Grammar Spec.C13Doc.
+From Slinky Require Import Model.Types Model.Parse Model.Dump Model.Exports Model.LdSem Model.LdDump Spec.C16 Spec.C19Grammar Spec.C13Doc Spec.DocWf Spec.DocSingleWf.
 Extraction Language OCaml.
 Extraction "specmodel.ml" run_case cli_run jcli run_link valid Known_C16_null_plain_string Known_C16_null_forbidden_field
   parse wf_lines doc_names_valid doc_names_valid_partial
-  doc_header_symbols doc_header_symbols_main doc_header_symbols_single.
+  doc_header_symbols doc_header_symbols_main doc_header_symbols_single
+  doc_symbols doc_symbols_single.
